@@ -417,8 +417,9 @@ pub struct TypeSpec {
     /// arithmetic; the shift is uniform because the first variant is explicit, so the order is the same)
     pub disc_shift: bool,
     /// the definition is produced by a `macro_rules!` invocation: bit 0 = field types arrive as `$t:ty` fragments,
-    /// bit 1 = explicit discriminants as `$d:expr` fragments (only with the real compiler; the in-process engine
-    /// always sees the plain definition)
+    /// bit 1 = explicit discriminants as `$d:expr` fragments, bit 2 = values of field-level parameters (method paths,
+    /// ranks, Default expressions) as `$v:path` / `$v:expr` fragments (only with the real compiler; the in-process
+    /// engine always sees the plain definition)
     pub via_macro: u8,
 }
 
@@ -733,6 +734,59 @@ impl TypeSpec {
                     if let Some(d) = v.disc {
                         params.push(format!("$d{i}:expr"));
                         args.push(render_disc(d, v.disc_sp, self.repr.as_deref(), self.disc_shift));
+                    }
+                }
+            }
+            let mut body = body;
+            if self.via_macro & 4 != 0 {
+                // values of field-level parameters written in token form (`method = path`, `rank(3)`, `Default = expr`)
+                // become `$m:path` / `$r:expr` / `$e:expr` fragments
+                let mut k = 0;
+                for f in self.all_fields() {
+                    for a in &f.attrs {
+                        for (p, sp) in &a.params {
+                            let (val, kind, allow_str) = match p {
+                                FParam::Method(m) => (m.clone(), "path", true),
+                                FParam::Rank(r) => (r.to_string(), "expr", true),
+                                FParam::Expr(e) => (e.clone(), "expr", false),
+                                _ => continue,
+                            };
+                            // string-literal spellings cannot carry a fragment
+                            if allow_str && sp % 4 >= 2 {
+                                continue;
+                            }
+                            // a path with generic arguments is not a `path` fragment in attribute position everywhere
+                            if kind == "path" && val.contains('<') {
+                                continue;
+                            }
+                            let rendered = render_fparam(p, *sp);
+                            let shorthand = format!("Default = {val}");
+                            let frag = format!("$v{k}");
+                            let replaced = rendered.replacen(&val, &frag, 1);
+                            // first occurrence that ends at a token boundary (`method = m` must not match `method = m::<u8>`)
+                            let find = |hay: &str, needle: &str| -> Option<usize> {
+                                let mut from = 0;
+                                while let Some(i) = hay[from..].find(needle) {
+                                    let end = from + i + needle.len();
+                                    let next = hay[end..].chars().next().unwrap_or(' ');
+                                    if !(next.is_alphanumeric() || next == '_' || next == ':' || next == '.' || next == '"') {
+                                        return Some(from + i);
+                                    }
+                                    from = end;
+                                }
+                                None
+                            };
+                            if let Some(i) = find(&body, &rendered) {
+                                body.replace_range(i..i + rendered.len(), &replaced);
+                            } else if let (true, Some(i)) = (matches!(p, FParam::Expr(_)), find(&body, &shorthand)) {
+                                body.replace_range(i..i + shorthand.len(), &format!("Default = {frag}"));
+                            } else {
+                                continue;
+                            }
+                            params.push(format!("{frag}:{kind}"));
+                            args.push(val);
+                            k += 1;
+                        }
                     }
                 }
             }
